@@ -400,6 +400,10 @@ func i1CosLine(r *rng) string {
 	default:
 		t = eMutate(r, c15GenRule(r))
 	}
+	if r.chance(1, 25) {
+		// a hiding rule / exception with a few hundred domains: longer than the scanner's 4096-byte read buffer
+		t = c15LongRule(r)
+	}
 	t = strings.NewReplacer("\n", "", "\r", "").Replace(t)
 	if r.chance(1, 8) {
 		t = pick(r, []string{" ", "\t", "\u00a0"}) + t
